@@ -80,26 +80,23 @@ def intersect (a b : FTy) : Option FTy :=
 def isOrderable (t : FTy) : Bool := t.base == "Int" || t.base == "Float" || t.base == "String"
 
 mutual
-/-- `Type::is_valid_value`; `none` is the `unimplemented!` on `FieldValue::Enum` (base.rs:380),
-reached only if the traversal gets there (`Iterator::all` stops at the first `false`). -/
-def isValidValue (t : FTy) : FV → Option Bool
-  | .null => some t.nullable
-  | .int _ => some (!t.isList && t.base == "Int")
-  | .float => some (!t.isList && t.base == "Float")
-  | .str _ => some (!t.isList && t.base == "String")
-  | .bool _ => some (!t.isList && t.base == "Boolean")
+/-- `Type::is_valid_value`: total; an enum literal is valid for no type (history: the enum arm was
+`unimplemented!`, base.rs:380, modelled as `none` — N-2 / F-C10-2, repaired). -/
+def isValidValue (t : FTy) : FV → Bool
+  | .null => t.nullable
+  | .int _ => !t.isList && t.base == "Int"
+  | .float => !t.isList && t.base == "Float"
+  | .str _ => !t.isList && t.base == "String"
+  | .bool _ => !t.isList && t.base == "Boolean"
   | .list items =>
     match t.asList with
     | some inner => allValid inner items
-    | none => some false
-  | .enum _ => none
-def allValid (t : FTy) : List FV → Option Bool
-  | [] => some true
-  | x :: xs =>
-    match isValidValue t x with
-    | some true => allValid t xs
-    | some false => some false
-    | none => none
+    | none => false
+  | .enum _ => false
+/-- `contents.iter().all(|inner| content_type.is_valid_value(inner))`. -/
+def allValid (t : FTy) : List FV → Bool
+  | [] => true
+  | x :: xs => isValidValue t x && allValid t xs
 end
 
 end FTy
@@ -626,10 +623,9 @@ def edgeParametersLoop (specified : List (String × FV)) :
         if p.hasDefault || p.ty.nullable then .ok (true, [])
         else .ok (false, [.MissingRequiredEdgeParameter])
       | some (_, value) =>
-        match p.ty.isValidValue value with
-        | none => .panic .enumArgument
-        | some true => .ok (true, [])
-        | some false => .ok (true, [.InvalidEdgeParameterType])
+        -- an enum literal fails the type check like any other ill-typed value
+        if p.ty.isValidValue value then .ok (true, [])
+        else .ok (true, [.InvalidEdgeParameterType])
     step >>= fun r =>
     if r.1 then
       -- `edge_arguments.insert_or_error(..).unwrap()`
